@@ -185,6 +185,7 @@ func (c *Client) Hello(localName string) error {
 
 // cmd is a convenience function that sends a command and returns the response
 func (c *Client) cmd(expectCode int, format string, args ...interface{}) (int, string, error) {
+	verifHook("cmd.pre", format)
 	c.mutex.Lock()
 
 	var logMsg []interface{}
@@ -405,6 +406,7 @@ type dataCloser struct {
 
 // Close releases the lock, closes the WriteCloser, waits for a response, and then returns any error encountered.
 func (d *dataCloser) Close() error {
+	verifHook("data.close", "")
 	d.c.mutex.Lock()
 	_ = d.WriteCloser.Close()
 	_, _, err := d.c.Text.ReadResponse(250)
@@ -414,6 +416,7 @@ func (d *dataCloser) Close() error {
 
 // Write writes data to the underlying WriteCloser while ensuring thread-safety by locking and unlocking a mutex.
 func (d *dataCloser) Write(p []byte) (n int, err error) {
+	verifHook("data.write", "")
 	d.c.mutex.Lock()
 	n, err = d.WriteCloser.Write(p)
 	d.c.mutex.Unlock()
